@@ -1,6 +1,8 @@
 package main
 
 import (
+	"bytes"
+	"encoding/binary"
 	"encoding/pem"
 	"fmt"
 	"math/rand"
@@ -173,13 +175,161 @@ func (u *sigUniverse) genOps(rng *rand.Rand, n int, decodableOnly bool) []string
 
 func init() {
 	checkers["C09"] = checker{
-		rule: "random histories of append / remove / entry query / list query / append-list (fresh non-empty lists, also of a type the library does not know, which later appends name again) / encode-decode over a colliding universe (3 owners; SHA-256, X.509, SHA-1 (valid but undecodable) and unknown types; 4 hashes, 31/33/0-byte hashes, 4 certificates as DER and PEM, two of equal DER length, one whose DER length equals another's PEM length), from the empty database or from a decoded stream (incl. two same-size X.509 lists); the implementation runs the history in the sandboxed worker reporting result, database and answer after each step; R_C09 (extracted run_history) checks each step against the ordered-entry view, the list invariants and the model; non-trivial = the history has a successful append and a successful remove; distinct by history hash",
+		rule: "random histories of append / remove / entry query / list query / append-list (fresh non-empty lists, also of a type the library does not know, which later appends name again) / encode-decode over a colliding universe (3 owners; SHA-256, X.509, SHA-1 (valid but undecodable) and unknown types; 4 hashes, 31/33/0-byte hashes, 4 certificates as DER and PEM, two of equal DER length, one whose DER length equals another's PEM length), from the empty database or from a decoded stream (incl. two same-size X.509 lists, and streams in which an entry occurs several times); the implementation runs the history in the sandboxed worker reporting result, database and answer after each step; R_C09 (extracted run_history) checks each step against the ordered-entry view, the list invariants and the model; the same for histories of the operations called on one list directly (AppendBytes/AppendSignature, RemoveBytes/RemoveSignature, Exists with its index; new lists and decoded ones of the X.509, SHA-256 and an unknown type; extracted run_list_history), whose final list, placed in a database, must encode to a stream that decodes to it (check_c07_built); non-trivial = the history has a successful append and a successful remove; distinct by history hash",
 		run:  runC09,
+	}
+}
+
+// genListOps: a history of direct operations on one list of type t.
+func (u *sigUniverse) genListOps(rng *rand.Rand, t util.EFIGUID, n int) []string {
+	type ent struct {
+		o util.EFIGUID
+		d []byte
+	}
+	var added []ent
+	data := func() []byte {
+		switch {
+		case t == gX509:
+			switch k := rng.Intn(10); {
+			case k < 5:
+				return pick(rng, u.ders)
+			case k < 8:
+				return pick(rng, u.pems)
+			case k < 9:
+				return []byte{}
+			default:
+				return pick(rng, u.hashes)
+			}
+		case t == gSHA256:
+			if rng.Intn(5) == 0 {
+				return pick(rng, u.wrong)
+			}
+			return pick(rng, u.hashes)
+		default:
+			if rng.Intn(3) == 0 {
+				return pick(rng, u.ders)
+			}
+			return pick(rng, u.hashes)
+		}
+	}
+	var ops []string
+	for len(ops) < n {
+		o, d := pick(rng, u.owners), data()
+		if len(added) > 0 && rng.Intn(3) > 0 && rng.Intn(20) >= 10 {
+			e := pick(rng, added)
+			o, d = e.o, e.d
+			if blk, _ := pem.Decode(d); blk != nil && rng.Intn(3) > 0 {
+				d = blk.Bytes
+			}
+		}
+		switch k := rng.Intn(20); {
+		case k < 10:
+			ops = append(ops, fmt.Sprintf("a~%s~%s", guidArg(o), hx(d)))
+			added = append(added, ent{o, d})
+		case k < 15:
+			ops = append(ops, fmt.Sprintf("r~%s~%s", guidArg(o), hx(d)))
+		default:
+			ops = append(ops, fmt.Sprintf("q~%s~%s", guidArg(o), hx(d)))
+		}
+	}
+	return ops
+}
+
+// runC09Lists: the same operations called on one list directly (AppendBytes / AppendSignature,
+// RemoveBytes / RemoveSignature, Exists), as callers that build a list for AppendList do.
+func runC09Lists(c *Ctx) {
+	rng := c.Rng
+	n := c.N(200, 12000)
+	maxOps := c.Bound(40, 200)
+	for i := 0; i < n; i++ {
+		u := newSigUniverse(rng)
+		t := gX509
+		switch k := rng.Intn(20); {
+		case k < 9:
+		case k < 17:
+			t = gSHA256
+		default:
+			t = u.unknownType()
+		}
+		sl := signature.NewSignatureList(t)
+		class := "list/from-new"
+		if rng.Intn(3) == 0 {
+			// start from a decoded list
+			switch t {
+			case gX509:
+				sl.AppendBytes(u.owners[0], u.ders[0])
+				if rng.Intn(2) == 0 {
+					sl.AppendBytes(u.owners[1], u.ders[1])
+				}
+			default:
+				for j := 0; j < 1+rng.Intn(3); j++ {
+					sl.AppendBytes(pick(rng, u.owners), u.hashes[j])
+				}
+			}
+			if t != u.unknownType() {
+				if nl, err := signature.ReadSignatureList(bytes.NewReader(sl.Bytes())); err == nil {
+					sl = nl
+					class = "list/from-decoded"
+				}
+			}
+		}
+		init := listArg(sl)
+		ops := u.genListOps(rng, t, 1+rng.Intn(maxOps))
+		opsArg := strings.Join(ops, "&")
+		o := c.Impl("list_history", init, opsArg)
+		if o.Class != "ret" || len(o.Fields) == 0 {
+			c.Rep.Record("list_history", class+"/worker-"+o.Class, true, "", []string{init, opsArg}, "violation", []string{o.Class}, map[string]string{"worker": o.Class})
+			continue
+		}
+		args := []string{init, opsArg, o.Fields[0]}
+		v, info := c.Drv.Eval("list_history", args...)
+		okA, okR := false, false
+		steps := strings.Split(o.Fields[0], "&")
+		for j, op := range ops {
+			if j < len(steps) && strings.HasPrefix(steps[j], "1~") {
+				okA = okA || strings.HasPrefix(op, "a~")
+				okR = okR || strings.HasPrefix(op, "r~")
+			}
+		}
+		match := map[string]string{}
+		if v != "ok" && len(info) > 0 {
+			var idx int
+			fmt.Sscan(info[0], &idx)
+			if idx < len(ops) {
+				match["op"] = ops[idx][:1]
+				info = append(info, "failing step: "+ops[idx])
+			}
+			if idx+1 < len(ops) {
+				args = []string{init, strings.Join(ops[:idx+1], "&"), strings.Join(steps[:idx+1], "&")}
+			}
+		}
+		c.Rep.Record("list_history", class, okA && okR, fmt.Sprintf("%d ops", len(ops)), args, v, info, match)
+		for _, op := range ops {
+			c.Rep.Histogram["listop/"+op[:1]]++
+		}
+		// a non-empty list of a decodable type, placed in a database, encodes to a well-formed stream
+		if v == "ok" && len(o.Fields) > 1 && t != u.unknownType() {
+			fl := parseListArg(o.Fields[1])
+			if len(fl.Signatures) > 0 {
+				db := signature.SignatureDatabase{}
+				db.AppendList(fl)
+				enc := db.Bytes()
+				od := c.Impl("db_decode", hx(enc), "read")
+				fields := od.Fields
+				if od.Class != "ret" || len(fields) == 0 {
+					fields = []string{od.Class}
+				}
+				bargs := append([]string{dbArg(db), hx(enc)}, fields...)
+				bv, binfo := c.Drv.Eval("c07_built", bargs...)
+				c.Rep.Record("list-built-roundtrip", class, true, fmt.Sprintf("%d entries", len(fl.Signatures)), bargs, bv, binfo, nil)
+			}
+		}
 	}
 }
 
 func runC09(c *Ctx) {
 	rng := c.Rng
+	runC09Lists(c)
 	n := c.N(300, 15000)
 	maxOps := c.Bound(60, 400)
 	for i := 0; i < n; i++ {
@@ -200,6 +350,27 @@ func runC09(c *Ctx) {
 			if err == nil {
 				init = dbArg(nd)
 				class = "from-decoded"
+			}
+		}
+		if init == "" && rng.Intn(8) == 0 {
+			// a decoded stream may hold the same entry more than once (nothing in the format forbids it):
+			// the operations still edit one entry at a time and keep the size equations
+			e := func(o util.EFIGUID, d []byte) []byte {
+				var b bytes.Buffer
+				binary.Write(&b, binary.LittleEndian, o)
+				b.Write(d)
+				return b.Bytes()
+			}
+			s := encList(gX509, uint32(28+len(u.ders[3])+16), 0, uint32(len(u.ders[3])+16), nil, [][]byte{e(u.owners[2], u.ders[3])})
+			hs := [][]byte{e(u.owners[0], u.hashes[0]), e(u.owners[0], u.hashes[1]), e(u.owners[0], u.hashes[0])}
+			if rng.Intn(2) == 0 {
+				hs = append(hs, e(u.owners[1], u.hashes[1]), e(u.owners[0], u.hashes[0]))
+			}
+			s = append(s, encList(gSHA256, uint32(28+48*len(hs)), 0, 48, nil, hs)...)
+			s = append(s, encList(gSHA256, 28+48, 0, 48, nil, [][]byte{e(u.owners[0], u.hashes[2])})...)
+			if nd, err := signature.ReadSignatureDatabase(bytes.NewReader(s)); err == nil {
+				init = dbArg(nd)
+				class = "from-decoded-with-repeats"
 			}
 		}
 		nops := 1 + rng.Intn(maxOps)
